@@ -38,6 +38,46 @@ Proof. unfold dgm. intros H. apply Nat.eqb_eq in H. now rewrite H. Qed.
 Lemma upm_lom p q : upm p q = lom q p.
 Proof. reflexivity. Qed.
 
+(** composition of the block masks (products of block-triangular parts) *)
+Lemma dgm_dgm p r q : dgm p r = true -> dgm r q = true -> dgm p q = true.
+Proof. unfold dgm. rewrite !Nat.eqb_eq. congruence. Qed.
+Lemma dgm_upm p r q : dgm p r = true -> upm r q = true -> upm p q = true.
+Proof. unfold dgm, upm. rewrite Nat.eqb_eq, !Nat.ltb_lt. lia. Qed.
+Lemma upm_dgm p r q : upm p r = true -> dgm r q = true -> upm p q = true.
+Proof. unfold dgm, upm. rewrite Nat.eqb_eq, !Nat.ltb_lt. lia. Qed.
+Lemma dgm_lom p r q : dgm p r = true -> lom r q = true -> lom p q = true.
+Proof. unfold dgm, lom. rewrite Nat.eqb_eq, !Nat.ltb_lt. lia. Qed.
+Lemma lom_dgm p r q : lom p r = true -> dgm r q = true -> lom p q = true.
+Proof. unfold dgm, lom. rewrite Nat.eqb_eq, !Nat.ltb_lt. lia. Qed.
+
+(** with exactly two blocks *)
+Section TwoBlocks.
+Variable D : nat.
+Hypothesis two_blocks : forall p, p < D -> blk p < 2.
+Lemma upm_upm2 p r q : p < D -> r < D -> q < D -> upm p r = true -> upm r q = true -> False.
+Proof.
+  intros Hp Hr Hq. unfold upm. rewrite !Nat.ltb_lt.
+  pose proof (two_blocks Hp). pose proof (two_blocks Hr). pose proof (two_blocks Hq). lia.
+Qed.
+Lemma lom_lom2 p r q : p < D -> r < D -> q < D -> lom p r = true -> lom r q = true -> False.
+Proof.
+  intros Hp Hr Hq. unfold lom. rewrite !Nat.ltb_lt.
+  pose proof (two_blocks Hp). pose proof (two_blocks Hr). pose proof (two_blocks Hq). lia.
+Qed.
+Lemma upm_lom2 p r q :
+  p < D -> r < D -> q < D -> upm p r = true -> lom r q = true -> dgm p q = true.
+Proof.
+  intros Hp Hr Hq. unfold upm, lom, dgm. rewrite !Nat.ltb_lt, Nat.eqb_eq.
+  pose proof (two_blocks Hp). pose proof (two_blocks Hr). pose proof (two_blocks Hq). lia.
+Qed.
+Lemma lom_upm2 p r q :
+  p < D -> r < D -> q < D -> lom p r = true -> upm r q = true -> dgm p q = true.
+Proof.
+  intros Hp Hr Hq. unfold upm, lom, dgm. rewrite !Nat.ltb_lt, Nat.eqb_eq.
+  pose proof (two_blocks Hp). pose proof (two_blocks Hr). pose proof (two_blocks Hq). lia.
+Qed.
+End TwoBlocks.
+
 Hypothesis keep_sym : forall p q, keep p q = keep q p.
 Hypothesis keep_refl : forall p, keep p p = true.
 Hypothesis keep_blk : forall p q, keep p q = true -> blk p = blk q.
@@ -53,3 +93,35 @@ Lemma dgm_cm p q : dgm p q = true -> cm p = cm q.
 Proof. intros H. apply cm_blk. now apply Nat.eqb_eq. Qed.
 
 End Masks.
+
+(** * The "euclidean" condition on the kept mask on commuting rows, and the three wirings
+      of block_diagonalize under which it holds *)
+Definition keep_eucl_on (D : nat) (keep : nat -> nat -> bool) (cm : nat -> bool) : Prop :=
+  forall p q r, p < D -> q < D -> r < D ->
+                cm p = true -> keep p q = true -> keep r q = true -> keep p r = true.
+
+(** (a) no scope function: everything inside the diagonal blocks is kept *)
+Lemma keep_eucl_blocks D (blk : nat -> nat) cm :
+  keep_eucl_on D (fun p q => Nat.eqb (blk p) (blk q)) cm.
+Proof.
+  intros p q r _ _ _ _. rewrite !Nat.eqb_eq. congruence.
+Qed.
+
+(** (b) the kept mask is an equivalence relation (symmetric and transitive) *)
+Lemma keep_eucl_equiv D (keep : nat -> nat -> bool) cm :
+  (forall p q, keep p q = keep q p) ->
+  (forall p q r, keep p q = true -> keep q r = true -> keep p r = true) ->
+  keep_eucl_on D keep cm.
+Proof.
+  intros Hs Ht p q r _ _ _ _ H1 H2. apply (Ht p q r H1). now rewrite Hs.
+Qed.
+
+(** (c) arbitrary mask on the blocks whose flag is off, whole block kept where it is on *)
+Lemma keep_eucl_flagged D (blk : nat -> nat) (keep : nat -> nat -> bool) cm :
+  (forall p q, keep p q = true -> blk p = blk q) ->
+  (forall p q, cm p = true -> keep p q = Nat.eqb (blk p) (blk q)) ->
+  keep_eucl_on D keep cm.
+Proof.
+  intros Hb Hc p q r _ _ _ C H1 H2. rewrite (Hc p r C). apply Nat.eqb_eq.
+  rewrite (Hb _ _ H1), (Hb _ _ H2). reflexivity.
+Qed.
